@@ -425,38 +425,34 @@ Force(q) == SubSeq(q, 1, Len(q))     \* evaluate a lazily defined sequence once
 InNetAll == \E n0 \in NetPartners : LET nets == Force(AllNets(obj.k, n0)) IN \E s \in NetStyles : InNet(s, nets)
 InNetInferAll == \E n \in InferPartners : InNetInfer(n)
 
-NextMake ==
-  \/ \E k \in KindsOn : \E c \in CanonOf(k) : MakeText(k, "str", c)
-  \/ \E k \in KindsOn : \E f \in TextForms(k), c \in TextsOf(k) :
-        IF f = "str" /\ c \in CanonOf(k) THEN FALSE ELSE MakeText(k, f, c)
-  \/ \E k \in KindsOn : \E v \in BinVals(k) : \E f \in BinForms(k, v) : MakeBin(k, f, v, 0)
-  \/ \E k \in KindsOn : \E v \in SizedVals(k) :
-        \E f \in {g \in BinForms(k, v) : Sized(g)}, adj \in {-1, 1} : MakeBin(k, f, v, adj)
-NextOp ==
-  \/ Reparse
-  \/ Props
-  \/ \E attr \in {"_value", "raw"} : Mutate(attr)
-  \/ MutateSource
-  \/ InNetAll
-  \/ InNetInferAll
-  \/ obj.v \in Base4 /\ \E s \in {"int", "str", "mask", "mask_obj"} : GetNetwork(s)
-  \/ obj.v \in Base6 \cup Rich6 /\ \E zd \in BOOLEAN, sd \in BOOLEAN, v4 \in {"auto", "yes", "no"} : ToStr6(zd, sd, v4)
-  \/ obj.v \in Base6 /\ \E m \in Macs : SetMac6(m)
-NextPure ==
-  \/ \E k \in NetKindsOn : \E b \in (-1)..(W(k) * NU(k) + 1) : CidrToMask(k, b)
-  \/ \E k \in NetKindsOn : \E f \in {"str", "obj"}, m \in MaskDomain(k) : MaskToCidrA(k, f, m)
-  \/ \E k \in NetKindsOn : \E c \in CidrOf(k), inf \in InferFlags(k), ah \in BOOLEAN : ParseCidr(k, c, inf, ah)
-  \/ \E d \in DpidsOn, f \in {"int", "raw"}, l \in BOOLEAN : DpidToStr(f, d, l)
-  \/ \E c \in DpidTexts : StrToDpid(c)
-  \/ \E d \in DpidsOn \cup DpidsRTOn, l \in BOOLEAN : DpidRound(d, l)
-
 \* The canonical-text constructor comes first so that the breadth-first search
 \* reaches every value through it: the exported behaviour of an operation is
-\* then "construct from canonical text; operate".  The guards only spare TLC
-\* the enumeration of alphabets whose actions are disabled anyway.
-Next == \/ MayMake /\ NextMake
-        \/ (obj.k # "none" /\ MayOp) /\ NextOp
-        \/ MayMake /\ NextPure
+\* then "construct from canonical text; operate".  The leading guards only
+\* spare TLC the enumeration of alphabets whose actions are disabled anyway.
+OpOK == obj.k # "none" /\ MayOp
+Next ==
+  \/ MayMake /\ \E k \in KindsOn : \E c \in CanonOf(k) : MakeText(k, "str", c)
+  \/ MayMake /\ \E k \in KindsOn : \E f \in TextForms(k), c \in TextsOf(k) :
+        IF f = "str" /\ c \in CanonOf(k) THEN FALSE ELSE MakeText(k, f, c)
+  \/ MayMake /\ \E k \in KindsOn : \E v \in BinVals(k) : \E f \in BinForms(k, v) : MakeBin(k, f, v, 0)
+  \/ MayMake /\ \E k \in KindsOn : \E v \in SizedVals(k) :
+        \E f \in {g \in BinForms(k, v) : Sized(g)}, adj \in {-1, 1} : MakeBin(k, f, v, adj)
+  \/ OpOK /\ Reparse
+  \/ OpOK /\ Props
+  \/ OpOK /\ \E attr \in {"_value", "raw"} : Mutate(attr)
+  \/ OpOK /\ MutateSource
+  \/ OpOK /\ InNetAll
+  \/ OpOK /\ InNetInferAll
+  \/ OpOK /\ obj.v \in Base4 /\ \E s \in {"int", "str", "mask", "mask_obj"} : GetNetwork(s)
+  \/ OpOK /\ obj.v \in Base6 \cup Rich6 /\
+        \E zd \in BOOLEAN, sd \in BOOLEAN, v4 \in {"auto", "yes", "no"} : ToStr6(zd, sd, v4)
+  \/ OpOK /\ obj.v \in Base6 /\ \E m \in Macs : SetMac6(m)
+  \/ MayMake /\ \E k \in NetKindsOn : \E b \in (-1)..(W(k) * NU(k) + 1) : CidrToMask(k, b)
+  \/ MayMake /\ \E k \in NetKindsOn : \E f \in {"str", "obj"}, m \in MaskDomain(k) : MaskToCidrA(k, f, m)
+  \/ MayMake /\ \E k \in NetKindsOn : \E c \in CidrOf(k), inf \in InferFlags(k), ah \in BOOLEAN : ParseCidr(k, c, inf, ah)
+  \/ MayMake /\ \E d \in DpidsOn, f \in {"int", "raw"}, l \in BOOLEAN : DpidToStr(f, d, l)
+  \/ MayMake /\ \E c \in DpidTexts : StrToDpid(c)
+  \/ MayMake /\ \E d \in DpidsOn \cup DpidsRTOn, l \in BOOLEAN : DpidRound(d, l)
 
 Spec == Init /\ [][Next]_vars
 
@@ -523,6 +519,9 @@ Immutable == [][last'.a \notin {"MakeText", "MakeBin"} => obj' = obj]_vars
 
 \* ---- export for the replay harness
 Bound   == Len(hist) <= D
-Export  == (Len(hist) = D) => PrintT(<<"H", ToJson(hist)>>)
+\* simulation: TLC evaluates invariants on every candidate successor of the
+\* action it picked; printing only after a single-successor operation gives
+\* one line per walk position instead of one per candidate
+Export  == (Len(hist) >= D /\ last.a \in {"Reparse", "Props", "MutateSource"}) => PrintT(<<"H", ToJson(hist)>>)
 ExportT == PrintT(<<"T", ToJson(hist')>>)
 =============================================================================
